@@ -10,7 +10,8 @@ From CMinx Require Import Base.Str Model.Lexer Model.Parser Model.DocTypes Model
      Spec.EntrySpec Spec.AggSpec Gen.SourceLiterals Proofs.AggInv Proofs.SpecLinks Proofs.LiteralsMatch
      Base.PySem Gen.PySource Proofs.SourceMatch Model.Writer
      Proofs.SourceMatch2
-     Model.Pipeline Proofs.SourceMatch3.
+     Model.Pipeline Proofs.SourceMatch3
+     Gen.GrammarSource Proofs.GrammarBaseline Proofs.GrammarPins.
 Import ListNotations.
 
 (* the main refinement: under default settings the entry list (kind and name, in order) of a
@@ -180,3 +181,14 @@ Theorem C02_dispatch_entries_resolve_to_own_method :
           PySource.dispatch_process_hierarchy = true.
 Proof. exact dispatch_entries_resolve_to_own_method. Qed.
 Print Assumptions C02_dispatch_entries_resolve_to_own_method.
+
+(* the generated lexer / parser / listener modules and the error listeners are (up to layout, comments,
+   docstrings) the code the model was validated against; every context class dispatches to the listener
+   method of its rule; the aggregator overrides exactly the four enter callbacks agg_step composes *)
+Theorem C02_parser_code_unchanged :
+  parser_package_digests = base_parser_package_digests
+  /\ parser_dispatch = base_parser_dispatch
+  /\ aggregator_listener_methods
+     = [s"enterDocumented_command"; s"enterCommand_invocation"; s"enterDocumented_module"; s"enterBracket_doccomment"].
+Proof. exact (conj parser_package_unchanged (conj parser_dispatch_unchanged aggregator_listener_methods_unchanged)). Qed.
+Print Assumptions C02_parser_code_unchanged.
